@@ -309,6 +309,9 @@ func sharedStateConcurrent(rep *Report, idx int, r *rand.Rand) {
 	}
 	verdict := func(k int) string {
 		states, how := runGoal(goals[k], w.st, -1, 5*time.Second)
+		if how != "closed" { // a loaded machine is not a verdict: once more, with a generous limit
+			states, how = runGoal(goals[k], w.st, -1, 30*time.Second)
+		}
 		return fmt.Sprintf("%d state(s), %s", len(states), how)
 	}
 	want := make([]string, len(goals))
